@@ -76,7 +76,12 @@ fn observe(tokens: &[&str]) -> String {
     let now: u32 = tokens.iter().find_map(|t| t.strip_prefix("now=")).and_then(|x| x.parse().ok()).unwrap_or(1_700_000_000);
     let mut all: Vec<Vec<u8>> = Vec::new();
     for i in 0..5u32 {
-        match build_once(tokens, now + i * 7919) {
+        // the last two in-process builds run with SOURCE_DATE_EPOCH set (to something else than the configured source date)
+        if i == 3 { std::env::set_var("SOURCE_DATE_EPOCH", "1650000000"); }
+        if i == 4 { std::env::set_var("SOURCE_DATE_EPOCH", "1"); }
+        let r = build_once(tokens, now + i * 7919);
+        if i >= 3 { std::env::remove_var("SOURCE_DATE_EPOCH"); }
+        match r {
             Ok(b) => all.push(b),
             Err(_) => { cleanup(); return "err".into(); }
         }
@@ -91,6 +96,11 @@ fn observe(tokens: &[&str]) -> String {
         let mut cmd = std::process::Command::new(&exe);
         cmd.arg("reprochild").args(tokens).arg(format!("childnow={}", now + 100_003 * (i as u32 + 1)))
             .env("TZ", tz).env("LANG", if i % 2 == 0 { "C" } else { "de_DE.UTF-8" }).env(format!("VERIF_NOISE_{}", i), "x")
+            // the environment is not an input of the build: the variables reproducible-build tooling and rpmbuild look at are set
+            // to values that differ from the configuration (seed C11-8: SOURCE_DATE_EPOCH overriding the configured source date)
+            .env("SOURCE_DATE_EPOCH", format!("{}", [1_650_000_000u32, 1_234_567_890, 1_800_000_000, 0][i % 4]))
+            .env("USER", ["alice", "root"][i % 2]).env("LOGNAME", ["alice", "root"][i % 2])
+            .env("HOSTNAME", format!("builder{}.example", i)).env("RPM_BUILD_NCPUS", format!("{}", i + 1))
             .current_dir(&verif);
         match cmd.output() {
             Ok(o) => child_fnv.push(String::from_utf8_lossy(&o.stdout).trim().to_string()),
